@@ -6,6 +6,7 @@ toolchain go1.23.6
 
 require (
 	ariga.io/atlas v0.0.0
+	github.com/DATA-DOG/go-sqlmock v1.5.0
 	github.com/hashicorp/hcl/v2 v2.13.0
 	github.com/mattn/go-sqlite3 v1.14.24
 	pgregory.net/rapid v1.3.0
